@@ -203,6 +203,17 @@ func genHeap(c *Ctx) {
 			c.Emit(withHints(ops))
 		}
 	}
+	// one message published 105 times through each ID-assigning replayer: every publication keeps its own ID (three digits
+	// included) whatever is published later
+	for kind := 0; kind < 2; kind++ {
+		ops := []val.V{app(0, 0)}
+		for i := 0; i < 105; i++ {
+			ops = append(ops, val.L(val.N(6), val.N(0), val.Int(kind)))
+		}
+		ops = append(ops, app(0, 1))
+		c.Count("directed-publish-105-times")
+		c.Emit(withHints(ops))
+	}
 	// exhaustive: UnmarshalText into a message that has clones / stored copies, at every template size
 	for k := 1; k <= 6; k++ {
 		for target := 0; target < 3; target++ {
